@@ -251,7 +251,11 @@ func scripted(acts []act, p *probe) http.Handler {
 
 var backendURL, _ = url.Parse("http://backend.example:80")
 
+// the balancers of the stack built last, outermost first (for the probe that drains the pool while a request is in flight)
+var builtBalancers []interface{ RemoveServer(*url.URL) error }
+
 func buildStack(layers []layerSpec, inner http.Handler, prelude bool) (http.Handler, error) {
+	builtBalancers = nil
 	h := inner
 	// one source for everybody: the loopback server may listen on 127.0.0.1 or, when that fails under port pressure, on
 	// [::1], and the request that uses up the rate limiter's token must count for the same source as the real one
@@ -372,6 +376,7 @@ func buildStack(layers []layerSpec, inner http.Handler, prelude bool) (http.Hand
 				if l.intervenes == 0 {
 					_ = rr.UpsertServer(backendURL)
 				}
+				builtBalancers = append(builtBalancers, rr)
 				h = rr
 			} else {
 				var ropts []roundrobin.RebalancerOption
@@ -385,6 +390,7 @@ func buildStack(layers []layerSpec, inner http.Handler, prelude bool) (http.Hand
 				if l.intervenes == 0 {
 					_ = rb.UpsertServer(backendURL)
 				}
+				builtBalancers = append(builtBalancers, rb)
 				h = rb
 			}
 		case 7:
@@ -770,6 +776,9 @@ func (c *stackComp) Run(h *hlib.History) ([]hlib.Mon, bool) {
 			if msg := inFlightProbe(layers); msg != "" {
 				add("%s", msg)
 			}
+			if msg := drainedInFlightProbe(layers); msg != "" {
+				add("%s", msg)
+			}
 		}
 	}
 	return mons, true
@@ -835,6 +844,58 @@ func inFlightProbe(layers []layerSpec) string {
 		}
 	}
 	return msg
+}
+
+// drainedInFlightProbe: the server a request was routed to is taken out of every balancer of the stack while the request
+// is inside the handler (a backend being drained): the request was passed on, so its response is relayed like any other.
+func drainedInFlightProbe(layers []layerSpec) string {
+	entered, release := make(chan struct{}, 1), make(chan struct{})
+	top, err := buildStack(layers, http.HandlerFunc(func(w http.ResponseWriter, r *http.Request) {
+		entered <- struct{}{}
+		<-release
+		w.Header().Set("X-H-1", "1")
+		w.WriteHeader(http.StatusAccepted)
+		_, _ = w.Write([]byte("done"))
+	}), false)
+	if err != nil || len(builtBalancers) == 0 {
+		return ""
+	}
+	balancers := builtBalancers
+	hlib.Count("drained_in_flight_probes", 1)
+	rec := httptest.NewRecorder()
+	done := make(chan interface{}, 1)
+	go func() {
+		defer func() { done <- recover() }()
+		top.ServeHTTP(rec, httptest.NewRequest(http.MethodGet, "http://x/some/path", nil))
+	}()
+	select {
+	case <-entered:
+	case p := <-done:
+		close(release)
+		if p != nil {
+			return fmt.Sprintf("drained-in-flight probe: the request panicked before reaching the handler: %v", p)
+		}
+		return ""
+	case <-time.After(5 * time.Second):
+		close(release)
+		return ""
+	}
+	for _, b := range balancers {
+		_ = b.RemoveServer(backendURL)
+	}
+	close(release)
+	select {
+	case p := <-done:
+		if p != nil {
+			return fmt.Sprintf("drained-in-flight probe: the server was removed from the pool while its request was inside the handler; when the handler returned the stack panicked: %v (the handler's response is lost)", p)
+		}
+	case <-time.After(5 * time.Second):
+		return "drained-in-flight probe: the request did not return within 5 s after its server was removed from the pool"
+	}
+	if rec.Code != http.StatusAccepted || rec.Body.String() != "done" {
+		return fmt.Sprintf("drained-in-flight probe: the handler answered 202 \"done\", the client got %d %q (its server was removed from the pool while the request was in flight)", rec.Code, rec.Body.String())
+	}
+	return ""
 }
 
 func resourceTrouble(e string) bool {
